@@ -156,12 +156,8 @@ def run(m: Model, r: Report, tier: str) -> None:
         a, b = cr.get(cls), sr.get(cls)
         construct = f"update_state#{cls}"
         if a is None or b is None:
-            # one-sided rule: identify the finding by the rule's (rename-insensitive) content, so that a changed one-sided rule is a new violation
-            import hashlib
-            side_fn = cu if b is None else su
-            st_ = next((x for x in side_fn.node.body if isinstance(x, ast.If) and cls in ast.unparse(x.test)), None)
-            dig = hashlib.sha1(re.sub(r"\s+", "", m.mtext(side_fn, st_) if st_ is not None else "").encode()).hexdigest()[:8]
-            construct = f"update_state#{cls}@{'client' if b is None else 'server'}-only:{dig}"
+            # one-sided rule (no counterpart to compare it with): identified by the response class and the side it exists on
+            construct = f"update_state#{cls}@{'client' if b is None else 'server'}-only"
         r.check(a == b, "R1", construct,
                 f"client rule {a} vs server rule {b}: the state the client logs differs from the state the replaying server derives, so later rows "
                 "of the recording no longer match (replayed as silence)", loc=cu.loc if a else su.loc)
